@@ -826,6 +826,14 @@ pixman_image_set_alpha_map (pixman_image_t *image,
 	return;
     }
 
+    if (alpha_map == image)
+    {
+	/* An image can't be its own alpha map: it would hold a
+	 * reference to itself and validation would never terminate.
+	 */
+	return;
+    }
+
     if (common->alpha_map != (bits_image_t *)alpha_map)
     {
 	if (common->alpha_map)
